@@ -138,7 +138,10 @@ func scenarioC02(rc *RunCtx) {
 	}
 	// what follows the signal must not un-signal it
 	for n := t.Int("c02.trailing", 0, 3); n > 0; n-- {
-		switch t.Pick("c02.trail.kind", 6) {
+		switch t.Pick("c02.trail.kind", 7) {
+		case 6: // the test case is invalidated by a generator giving up, not by Skip
+			body = append(body, &Stmt{K: SDraw, Var: p.NVars, Gen: &GenSpec{K: "filter_never"}, Label: "never"})
+			p.NVars++
 		case 0:
 			body = append(body, &Stmt{K: SLog})
 		case 1:
